@@ -10,7 +10,6 @@ import (
 	"encoding/binary"
 	"fmt"
 	"net"
-	"os"
 	"sort"
 	"strings"
 	"sync"
@@ -442,7 +441,6 @@ func Cuts(stream []byte, pos []int) [][]byte {
 func init() {
 	// att <dialect 1..5> <segment-hex>... : one connection, one read per segment, then close
 	RegisterOp("att", attOp)
-	attChildInit()
 }
 
 // ---------------------------------------------------------------- reference computations (independent)
@@ -537,30 +535,3 @@ func AttSegsEq(a, b []AttSeg) bool {
 }
 
 // ---------------------------------------------------------------- child-process attachment server
-
-// attChildInit: when the harness binary is started with VERIFH_ATT_CHILD=<addr>,<dialect> it IS an
-// attachment server with the default handlers (attachment.New(...).Run()) in the working directory
-// VERIFH_ATT_CWD; a panic in any connection goroutine kills it, which is what the parent observes.
-func attChildInit() {
-	spec := os.Getenv("VERIFH_ATT_CHILD")
-	if spec == "" {
-		return
-	}
-	parts := strings.Split(spec, ",")
-	if cwd := os.Getenv("VERIFH_ATT_CWD"); cwd != "" {
-		if err := os.Chdir(cwd); err != nil {
-			os.Exit(3)
-		}
-	}
-	d := 1
-	if len(parts) > 1 {
-		d = atoi(parts[1])
-	}
-	attachment.New(attachment.WithHostPorts(parts[0]), attachment.WithActiveSafetyType(consts.ActiveSafetyType(d))).Run()
-	os.Exit(4) // Run returns only when listen failed
-}
-
-// C10Attachment plays hostile scripts against the attachment server (connect-and-close, 0x1210 then
-// 0x1212 with no chunk, adversarial names / offsets / lengths, marker inside ids, close mid-file, ...)
-// and reports every crash as a violation with signature "C10/att/<class>".
-func C10Attachment(c *Ctx) {}
